@@ -744,9 +744,26 @@ func (r *Run) c09Recipient(fn *ssa.Function, tm *Termer, loops []*Loop, bump, al
 		}
 		return nil
 	}
-	best, isPhi := base(bump).(*ssa.Phi)
+	// the choice is carried as a pointer (the chosen species, nil while there is none) or as a position in the
+	// species list (negative while there is none); in the second form the recipient is recv.Species[choice]
+	choiceOf := func(b ssa.Value) (*ssa.Phi, bool) {
+		if ph, isPhi := b.(*ssa.Phi); isPhi {
+			return ph, false
+		}
+		if ld, isLoad := b.(*ssa.UnOp); isLoad && ld.Op == token.MUL {
+			if ia, isIA := ld.X.(*ssa.IndexAddr); isIA && tm.Of(ia.X).String() == "recv.Species" {
+				if ph, isPhi := ia.Index.(*ssa.Phi); isPhi && c09IsIntValue(ph) {
+					return ph, true
+				}
+			}
+		}
+		return nil, false
+	}
+	best, byIndex := choiceOf(base(bump))
+	isPhi := best != nil
 	ok, why := true, ""
 	var l *Loop
+	var walkIdx ssa.Value // byIndex: the position of the current species in the scan
 	if isPhi {
 		for _, x := range loops {
 			if x.Header == best.Block() && loopRangesOver(tm, x, "recv.Species") {
@@ -754,9 +771,34 @@ func (r *Run) c09Recipient(fn *ssa.Function, tm *Termer, loops []*Loop, bump, al
 			}
 		}
 	}
+	if l != nil && byIndex {
+		idx, w := c09FullWalk(tm, l, "recv.Species")
+		if idx == nil {
+			ok, why = false, "the scan that records the position of the chosen species does not visit every species: "+w
+		}
+		walkIdx = idx
+	}
+	// afterScan: b lies between the scan and block `to` (both stores read the list again in the index form)
+	afterScan := func(to *ssa.BasicBlock) func(b *ssa.BasicBlock) bool {
+		return func(b *ssa.BasicBlock) bool {
+			return l.Blocks[b] || ((b == l.Header || reachesBlock(l.Header, b)) && (b == to || reachesBlock(b, to)))
+		}
+	}
 	switch {
+	case !ok:
 	case !isPhi || l == nil:
 		ok, why = false, "the species that receives the make-up offspring is "+tm.Of(base(bump)).String()+", not a choice carried round a loop over all species"
+	case byIndex:
+		if other, oIdx := choiceOf(base(all)); !oIdx || other != best {
+			ok, why = false, "the fallback gives the population to "+tm.Of(base(all)).String()+", not to the species at the position chosen by the scan"
+			break
+		}
+		// the list indexed is the list scanned
+		for _, st := range []*ssa.Store{bump, all} {
+			if bad := r.c09SpeciesListWritten(fn, tm, afterScan(st.Block())); bad != "" {
+				ok, why = false, bad+" between the scan and the store at "+p.Pos(st.Pos())+": the position chosen no longer denotes the species chosen"
+			}
+		}
 	case base(all) != ssa.Value(best):
 		// the other spelling of "the chosen species": a later walk over all species that stores through the current
 		// species exactly in the iterations that compared it identical with the choice
@@ -764,10 +806,31 @@ func (r *Run) c09Recipient(fn *ssa.Function, tm *Termer, loops []*Loop, bump, al
 			ok, why = false, "the fallback gives the population to "+tm.Of(base(all)).String()+", not to the species chosen by the scan ("+w+")"
 		}
 	}
+	// saysNone: guard g holds only while nothing is chosen (nil / a negative position)
+	saysNone := func(g Guard) bool {
+		if !byIndex {
+			return GuardNilness(g, func(v ssa.Value) bool { return v == ssa.Value(best) }) > 0
+		}
+		x, y, op, okc := CmpFact(g.Cond, g.True)
+		if !okc || x != ssa.Value(best) {
+			return false
+		}
+		k, isK := constInt(y)
+		if !isK {
+			return false
+		}
+		switch op {
+		case token.LSS:
+			return k <= 0
+		case token.LEQ, token.EQL:
+			return k < 0
+		}
+		return false
+	}
 	if ok {
 		for _, st := range []*ssa.Store{bump, all} {
 			for _, g := range Guards(st.Block()) {
-				if GuardNilness(g, func(v ssa.Value) bool { return v == ssa.Value(best) }) > 0 {
+				if saysNone(g) {
 					ok, why = false, "the store at "+p.Pos(st.Pos())+" runs only when no species was chosen"
 				}
 			}
@@ -775,8 +838,14 @@ func (r *Run) c09Recipient(fn *ssa.Function, tm *Termer, loops []*Loop, bump, al
 	}
 	if ok {
 		for i, e := range best.Edges {
-			if !l.Blocks[best.Block().Preds[i]] && tm.Of(e).Op != "nil" {
+			if l.Blocks[best.Block().Preds[i]] {
+				continue
+			}
+			if !byIndex && tm.Of(e).Op != "nil" {
 				ok, why = false, "the choice does not start from nil"
+			}
+			if k, isK := constInt(e); byIndex && (!isK || k >= 0) {
+				ok, why = false, "the chosen position does not start from a negative constant (`no species yet`)"
 			}
 		}
 		paths, complete := EnumIterPaths(fn, l, 200)
@@ -784,6 +853,36 @@ func (r *Run) c09Recipient(fn *ssa.Function, tm *Termer, loops []*Loop, bump, al
 			ok, why = false, "too many paths through the scan"
 		}
 		const cur, curQ = "recv.Species[*]", "recv.Species[*].ExpectedOffspring"
+		// isCur: v denotes the species of this iteration (index form: its position in the list);
+		// isCurQ: v is the quota of that species (index form: read through the element at the position of the walk)
+		isCur := func(v ssa.Value) bool {
+			if byIndex {
+				return v == walkIdx
+			}
+			return tm.Of(v).String() == cur
+		}
+		isCurQ := func(v ssa.Value) bool {
+			if tm.Of(v).String() != curQ {
+				return false
+			}
+			if !byIndex {
+				return true
+			}
+			ld, isLoad := v.(*ssa.UnOp)
+			if !isLoad || ld.Op != token.MUL {
+				return false
+			}
+			fa, isFA := ld.X.(*ssa.FieldAddr)
+			if !isFA {
+				return false
+			}
+			el, isLoad := fa.X.(*ssa.UnOp)
+			if !isLoad || el.Op != token.MUL {
+				return false
+			}
+			ia, isIA := el.X.(*ssa.IndexAddr)
+			return isIA && ia.Index == walkIdx && tm.Of(ia.X).String() == "recv.Species"
+		}
 		var maxPhi *ssa.Phi
 		strict := false
 		n := 0
@@ -803,7 +902,7 @@ func (r *Run) c09Recipient(fn *ssa.Function, tm *Termer, loops []*Loop, bump, al
 					if op == token.LEQ || op == token.LSS {
 						x, y, op = y, x, mirrorCmp(op)
 					}
-					if (op != token.GEQ && op != token.GTR) || tm.Of(x).String() != curQ {
+					if (op != token.GEQ && op != token.GTR) || !isCurQ(x) {
 						continue
 					}
 					m, isM := y.(*ssa.Phi)
@@ -827,7 +926,7 @@ func (r *Run) c09Recipient(fn *ssa.Function, tm *Termer, loops []*Loop, bump, al
 			nm := ip.NextValue(maxPhi)
 			if chosen {
 				n++
-				if tm.Of(nb).String() != cur || tm.Of(nm).String() != curQ {
+				if !isCur(nb) || !isCurQ(nm) {
 					ok, why = false, "a species whose quota reaches the running maximum is not recorded as the choice together with its quota (choice becomes "+tm.Of(nb).String()+", maximum "+tm.Of(nm).String()+")"
 				}
 			} else if nb != ssa.Value(best) || nm != ssa.Value(maxPhi) {
@@ -938,7 +1037,6 @@ func c09FullWalk(tm *Termer, l *Loop, what string) (ssa.Value, string) {
 // The choice is nil or an element of the list the scan walked; the walk reaches every element of the same list, so
 // the store runs for the chosen species whenever there is one - the same fact as `best.quota = n` under best != nil.
 func (r *Run) c09ChosenByIdentity(fn *ssa.Function, tm *Termer, loops []*Loop, scan *Loop, best *ssa.Phi, all *ssa.Store) (bool, string) {
-	p := r.P
 	fa, isFA := all.Addr.(*ssa.FieldAddr)
 	if !isFA {
 		return false, "the store is not made through a species"
@@ -995,17 +1093,28 @@ func (r *Run) c09ChosenByIdentity(fn *ssa.Function, tm *Termer, loops []*Loop, s
 	between := func(b *ssa.BasicBlock) bool {
 		return w.Blocks[b] || ((b == scan.Header || reachesBlock(scan.Header, b)) && (b == w.Header || reachesBlock(b, w.Header)))
 	}
+	if bad := r.c09SpeciesListWritten(fn, tm, between); bad != "" {
+		return false, bad + " between the scan and the walk"
+	}
+	return true, ""
+}
+
+// c09SpeciesListWritten: in the blocks selected by `in`, the species list of the population can change - a store
+// to Population.Species, a store to an element of the list, or a call that is handed the population or the list.
+// Returns what was found ("" when the list stays as it is).
+func (r *Run) c09SpeciesListWritten(fn *ssa.Function, tm *Termer, in func(*ssa.BasicBlock) bool) string {
+	p := r.P
 	for _, st := range FieldStores(fn, p.Field(PkgG, "Population", "Species")) {
-		if between(st.Block()) {
-			return false, "the species list is replaced at " + p.Pos(st.Pos()) + " between the scan and the walk"
+		if in(st.Block()) {
+			return "the species list is replaced at " + p.Pos(st.Pos())
 		}
 	}
 	bad := ""
-	Instrs(fn, func(b *ssa.BasicBlock, _ int, in ssa.Instruction) {
-		if bad != "" || !between(b) {
+	Instrs(fn, func(b *ssa.BasicBlock, _ int, ins ssa.Instruction) {
+		if bad != "" || !in(b) {
 			return
 		}
-		switch x := in.(type) {
+		switch x := ins.(type) {
 		case *ssa.Store:
 			if ia, isIA := x.Addr.(*ssa.IndexAddr); isIA && strings.HasPrefix(tm.Of(ia.X).String(), "recv.Species") && !strings.Contains(tm.Of(ia.X).String(), "[*].") {
 				bad = "an element of the species list is replaced at " + p.Pos(x.Pos())
@@ -1026,10 +1135,7 @@ func (r *Run) c09ChosenByIdentity(fn *ssa.Function, tm *Termer, loops []*Loop, s
 			}
 		}
 	})
-	if bad != "" {
-		return false, bad + " between the scan and the walk"
-	}
-	return true, ""
+	return bad
 }
 
 // c09BodyConds: the branch outcomes that decide whether block b runs, without the range conditions of
